@@ -79,7 +79,7 @@ Cuts(t, c, np) == LET n == Len(Cont(t, c, 1).defs)
 
 Styles == {"rle", "bp", "bp1", "mix", "zero", "pad1"}
 OptSpace == [style : Styles, idxStyle : {"rle", "bp", "mix"}, useDict : BOOLEAN, dictOffsetField : BOOLEAN,
-             dictEnc : {0, 2}, dataEnc : {2, 8}, crc : {"none", "good"}, codec : {0, 1, 5}, stats : {NoStatsW}, extraWidth : {0, 2},
+             dictEnc : {0, 2}, dataEnc : {2, 8}, crc : {"none", "good"}, codec : {0, 1, 5, 2, 6}, stats : {NoStatsW}, extraWidth : {0, 2},
              v2 : {FALSE}, encTag : {255}, codecTag : {255}, hmutPage : {0}, hmut : {[kind |-> "none"]},
              mixEnc : {"all", "fallback", "reverse"}, minW0 : BOOLEAN, emptyDict : BOOLEAN]
 \* unsupported features: data page v2, encodings carquet does not implement (tag only differs; the payload
